@@ -14,7 +14,7 @@ RULE = ("(a) units: LogLikelihoods.logsumexp on vectors of length 0-12 with -inf
         "triangular arrays, grid sizes 2-8, with zeros / -inf; (b) whole inside+outside runs of both classes on "
         "msprime tree sequences (2-6 samples, recombination, renumbered nodes) and single trees, random prior grids "
         "with zeros, cached and uncached g_i, outside standardisation on and off, eps in {0 exactly, 1e-300, API default, "
-        "0.25, 1e-8..0.1} (the same value for both spaces), ignore_oldest_root on 30%, num_threads None/1(/2), "
+        "0.25, 1e-8..0.1, and values comparable to the grid spacing} (the same value for both spaces), ignore_oldest_root on 30%, num_threads None/1(/2), "
         "numpy-typed option values, 20% of the multi-tree inputs with a chain of unary nodes (allow_unary=True), ~40% of "
         "all inputs with vlib.gen.exotic decorations (extra flag bits, ALL nodes renumbered, mutation-free sites, allele "
         "strings, populations, mutation times), 15% with tied node times; (c) oracle: explicit prior rows or a prior built "
@@ -79,7 +79,7 @@ def units(ctx, model_ok):
     from tsdate import discrete
     rng = ctx.rng
     # ---- logsumexp
-    vecs = [[]] + [rand_logvec(rng, rng.randint(1, 12)) for _ in range(ctx.n(80, 600))]
+    vecs = [[]] + [rand_logvec(rng, rng.randint(1, 12)) for _ in range(ctx.n(50, 600))]
     impl = [float(discrete.LogLikelihoods.logsumexp(np.array(v, dtype=float))) for v in vecs]
     for v, a in zip(vecs, impl):
         ctx.case({"unit": "logsumexp", "x": v}, nontrivial=len([x for x in v if x != -math.inf]) >= 2, kind="unit/logsumexp")
@@ -94,7 +94,7 @@ def units(ctx, model_ok):
                      {"unit": "logsumexp", "x": v, "impl": a, "model": b})
     # ---- triangular sums, ratio, index tables
     terms, expect = [], []
-    for _ in range(ctx.n(25, 300)):
+    for _ in range(ctx.n(16, 300)):
         G = rng.randint(2, 8)
         lin, log = lik_objects(G)
         tri = G * (G + 1) // 2
@@ -146,6 +146,8 @@ def gen_cases(ctx, n_single, n_multi):
     # the SAME value is passed to both probability spaces
     for c in cases:
         c["eps"] = ctx.rng.choice(EPS_CHOICES)
+        if ctx.rng.random() < 0.2:
+            c["eps"] = D.random_eps(ctx.rng, c["grid"])       # incl. the class comparable to the grid spacing
     return cases
 
 
@@ -503,7 +505,7 @@ def run(ctx, model_ok=True):
     if model_ok:
         D.check_float_funs(ctx)
     units(ctx, model_ok)
-    cases = gen_cases(ctx, ctx.n(12, 150), ctx.n(20, 200)) + gen_steep(ctx, ctx.n(48, 150))
+    cases = gen_cases(ctx, ctx.n(10, 150), ctx.n(16, 200)) + gen_steep(ctx, ctx.n(48, 150))
     # (b) whole runs, both classes against the model
     if model_ok:
         both = []
